@@ -1569,7 +1569,32 @@ def nondet(e, st, args, ins, mk):
     return v
 
 
+def _canon(v):
+    """canonical text of a fully concrete value (None if some part is symbolic): identity of an unrendered Sprintf"""
+    if isinstance(v, (bytes, bool, int)) or v is None:
+        return repr(v)
+    if isinstance(v, tuple):
+        parts = [_canon(x) for x in v]
+        return None if any(p_ is None for p_ in parts) else '(' + ','.join(parts) + ')'
+    if isinstance(v, Iface) and len(v.alts) == 1 and v.alts[0][0] is True:
+        c = _canon(v.alts[0][2])
+        return None if c is None else '%s:%s' % (v.alts[0][1], c)
+    return None
+
+
 def i_sprintf(e, st, args, ins):
+    r = _sprintf(e, st, args, ins)
+    if isinstance(r, Opaque) and isinstance(args[0], bytes):
+        # not rendered (a verb / operand outside the model): equal format and equal concrete operands = equal text
+        va = args[1]
+        vals = tuple(st.heap[va.obj][va.off + j] for j in range(va.len)) if va.obj is not None else ()
+        c = _canon(vals)
+        if c is not None:
+            return Opaque(('sprintf', args[0], c))
+    return r
+
+
+def _sprintf(e, st, args, ins):
     fmt = args[0]
     va = args[1]
     vals = [st.heap[va.obj][va.off + j] for j in range(va.len)] if va.obj is not None else []
@@ -2051,6 +2076,25 @@ def i_re_mustcompile(e, st, a, i):
     raise Unsupported('regexp.MustCompile of a fully symbolic pattern (use a pool of concrete alternatives)')
 
 
+def go_quotemeta(b):
+    """regexp.QuoteMeta: a backslash before each of \\.+*?()|[]{}^$"""
+    out = bytearray()
+    for c in b:
+        if c in b'\\.+*?()|[]{}^$':
+            out.append(0x5c)
+        out.append(c)
+    return bytes(out)
+
+
+def i_re_quotemeta(e, st, a, i):
+    s = a[0]
+    if isinstance(s, bytes):
+        return go_quotemeta(s)
+    if isinstance(s, ChoiceStr):
+        return choice_str(choice_map(go_quotemeta, s))
+    raise Unsupported('regexp.QuoteMeta of a fully symbolic string (use a pool of concrete alternatives)')
+
+
 def i_nondet_string(e, st, a, i):
     name, maxlen, alpha = a[0].decode(), a[1], a[2]
     cnt = e.nondet_count.get(name, 0)
@@ -2346,8 +2390,12 @@ INTRINSICS = {
     '(*regexp.Regexp).FindAllStringSubmatch': i_re_findall,
     '(*regexp.Regexp).FindString': i_re_findstring,
     'regexp.MustCompile': i_re_mustcompile,
+    'regexp.QuoteMeta': i_re_quotemeta,
     'github.com/grpc-ecosystem/go-grpc-middleware/util/metautils.ExtractIncoming': lambda e, st, a, i: MapV(((True, None),)),
     'github.com/google/uuid.New': lambda e, st, a, i: e.zero(i['type']),
+    # names of protobuf enum values only flow into log / error text
+    '(github.com/openconfig/gnmi/proto/gnmi.GetRequest_DataType).String': lambda e, st, a, i: b'<DataType>',
+    '(github.com/openconfig/gnmi/proto/gnmi.Encoding).String': lambda e, st, a, i: b'<Encoding>',
     '(github.com/google/uuid.UUID).String': lambda e, st, a, i: b'00000000-0000-0000-0000-000000000001',
     'github.com/onosproject/onos-lib-go/pkg/uri.WithScheme': lambda e, st, a, i: None,
     'github.com/onosproject/onos-lib-go/pkg/uri.WithOpaque': lambda e, st, a, i: None,
@@ -2469,6 +2517,9 @@ def i_atomix_map_by_name(e, st, a, i):
     """(*mapBuilder[K,V]).Get: the primitive is identified by its NAME alone (PrimitiveID{Name: b.options.Name} in the SDK):
     the harness function VerifNamedMap(name) of the calling package returns the stub primitive bound to that name"""
     name = _field(e, st, _field(e, st, a[0], 'options'), 'Name')
+    if isinstance(name, Opaque) and isinstance(name.tag, tuple) and name.tag[0] == 'sprintf':
+        # a name the Sprintf model does not render (e.g. %s of a struct): same format and operands = same name
+        name = b'<' + name.tag[1] + b'|' + name.tag[2].encode() + b'>'
     target = [f for f in e.funcs if f.endswith('.VerifNamedMap')]
     if len(target) != 1:
         raise Unsupported('atomix-map-by-name needs exactly one VerifNamedMap harness function')
@@ -2487,6 +2538,8 @@ CUTS = {
 }
 
 FORCE_STUB = {
+    '(github.com/openconfig/gnmi/proto/gnmi.GetRequest_DataType).String',
+    '(github.com/openconfig/gnmi/proto/gnmi.Encoding).String',
     'github.com/onosproject/onos-config/pkg/controller/utils.GetOnosConfigID',
     '(*github.com/onosproject/onos-api/go/onos/topo.Object).GetAspect',
     '(*github.com/onosproject/onos-api/go/onos/topo.Object).SetAspect',
